@@ -25,7 +25,18 @@ polls — `CInv_init`, `pollConn_inv`, `CInv_of_phase`, `runTask_inv`, `reachabl
   (`Quiescent`, `Quiescent.parse_nil`), in all three phases;
 * `parked_drained` — and the transport has no input left that was not read.
 
-No statement had to be weakened: there is no `_full`/`_partial` pair in this file.
+Hypotheses of the theorems: `CInv c` (proved for every reachable state, see above) and
+`c.env.tr.readWaker = false` before the poll.  The latter is not an invariant but the identification
+of "the park happened in this poll": `readWaker` is only ever set by `Transport.read` and only ever
+cleared by the peer releasing input (`Env.release`), so a poll that the executor starts after a
+release, or after a transient `Pending`, starts with the flag clear.  (A poll started by the stop flag
+while the task is parked starts with a stale flag; for such a poll the statement would be about the
+earlier poll that parked it.)  `park_only_pending` is the converse direction: under the same
+hypotheses the flag is set only by a poll that returns `Pending`.
+
+No statement had to be weakened: there is no `_full`/`_partial` pair in this file.  Section 4 has
+concrete connections that park in each of the four places (`ex0`/`exR`, `exH`, `exW`, `exB`/`exB2`)
+and one that is `Pending` while it still owes a reply and is, accordingly, not parked (`exQ`).
 -/
 namespace Fcgi.C08Inv
 open Fcgi Fcgi.Req Fcgi.Str Fcgi.Async Fcgi.Run
